@@ -70,6 +70,27 @@ var callSpecs = []callSpec{
 		}
 		return fmt.Sprint(out)
 	}},
+	{"Reentrant", false, func(a, _ geojson.Object) string {
+		// callbacks that call back into the library on the same object: a walk
+		// inside a walk, a search and predicates inside a search callback
+		var out []interface{}
+		a.ForEach(func(g geojson.Object) bool {
+			n := 0
+			a.ForEach(func(geojson.Object) bool { n++; return true })
+			out = append(out, n, a.Contains(g), g.Within(a), a.Intersects(g))
+			return len(out) < 40
+		})
+		if c, ok := a.(geojson.Collection); ok {
+			all := geometry.Rect{Min: geometry.Point{X: -1e9, Y: -1e9}, Max: geometry.Point{X: 1e9, Y: 1e9}}
+			c.Search(all, func(k geojson.Object) bool {
+				m := 0
+				c.Search(k.Rect(), func(geojson.Object) bool { m++; return true })
+				out = append(out, m, a.Intersects(k), k.JSON() == a.JSON())
+				return len(out) < 80
+			})
+		}
+		return fmt.Sprint(out...)
+	}},
 	{"Spatial.Within*", false, func(a, _ geojson.Object) string {
 		s := a.Spatial()
 		return fmt.Sprint(s.WithinRect(callRect), s.WithinPoint(callPt), s.WithinLine(callLine), s.WithinPoly(callPoly))
